@@ -715,4 +715,67 @@ example : (loadMain (fun ns => if ns = ["m"] then some ⟨[], [⟨"Main", []⟩]
     else if ns = ["other"] then some ⟨[], [⟨"X", []⟩]⟩ else none) 3 "m").toOption.map (·.opened) = some [["m"]] := by
   decide +kernel
 
+/-! ## histories (round V25) -/
+
+/-- **Histories.**  A process builds several meta-models one after the other while the grammar files are
+rewritten, removed, added or replaced by another tree at the same paths in between (another main file,
+earlier loads that failed, … included).  The outcome of step `i` is what `loadMain` makes of the files of
+step `i` alone: nothing of an earlier step takes part, for every history and every step. -/
+theorem C25_history (fuel : Nat) (hist : List Step) (i : Nat) (s : Step) (h : hist[i]? = some s) :
+    (loadHistory fuel hist)[i]? = some (loadMain s.fs fuel s.main) := by
+  induction hist generalizing i with
+  | nil => simp at h
+  | cons a rest ih =>
+    cases i with
+    | zero =>
+      simp at h
+      subst h
+      simp [loadHistory]
+    | succ k =>
+      simp at h
+      simpa [loadHistory] using ih k h
+
+/-- Hence every theorem of this file holds for every step of every history with the files of *that* step;
+spelled out for `metamodel[name]` (`C25_getitem`) and for the class log (`C25_fqn`, first half): after step `i`
+an unqualified name is the documented resolution in the files of step `i`, a qualified name that is found is
+the named file's rule in the files of step `i`, and a class reports `(x, n)` only if file `x` of step `i`
+defines rule `n`. -/
+theorem C25_history_step {fuel : Nat} {hist : List Step} {i : Nat} {s : Step} {st : St}
+    (h : hist[i]? = some s) (hl : (loadHistory fuel hist)[i]? = some (.ok st)) :
+    loadMain s.fs fuel s.main = .ok st ∧
+    (∀ n, OptRel (Denotes st.classes) (getItem st ⟨none, n⟩) (docResolve s.fs [s.main] ⟨none, n⟩)) ∧
+    (∀ q n t, getItem st ⟨some q, n⟩ = some t →
+        Denotes st.classes t (.rule q n) ∧ fsDefines s.fs q n = true) := by
+  have h1 := C25_history fuel hist i s h
+  rw [hl] at h1
+  have h2 : loadMain s.fs fuel s.main = .ok st := (Option.some.inj h1).symm
+  have h3 := C25_getitem h2
+  exact ⟨h2, h3.1, h3.2.1⟩
+
+/-- step 1: `m` imports `b`, `c`; `b` and `c` define `C0`.  step 2: the same paths, `b` rewritten without `C0`. -/
+def histFS1 : FS := fun ns =>
+  if ns = ["m"] then some ⟨[["b"], ["c"]], [⟨"Main", [⟨none, "C0"⟩]⟩]⟩
+  else if ns = ["b"] then some ⟨[], [⟨"C0", []⟩]⟩
+  else if ns = ["c"] then some ⟨[], [⟨"C0", []⟩]⟩
+  else none
+
+def histFS2 : FS := fun ns =>
+  if ns = ["m"] then some ⟨[["b"], ["c"]], [⟨"Main", [⟨none, "C0"⟩]⟩]⟩
+  else if ns = ["b"] then some ⟨[], [⟨"C1", []⟩]⟩
+  else if ns = ["c"] then some ⟨[], [⟨"C0", []⟩]⟩
+  else none
+
+/-- non-vacuity: both steps load, `C0` of the main file is `b.C0` (class 0) first and `c.C0` (class 1) after the
+rewrite of `b` -/
+example : (loadHistory 4 [⟨histFS1, "m"⟩, ⟨histFS2, "m"⟩]).map
+    (fun r => r.toOption.map fun st => st.classes) =
+    [some [(["b"], "C0"), (["c"], "C0"), (["m"], "Main")], some [(["b"], "C1"), (["c"], "C0"), (["m"], "Main")]] := by
+  decide +kernel
+
+example : (loadHistory 4 [⟨histFS1, "m"⟩, ⟨histFS2, "m"⟩]).map
+    (fun r => r.toOption.map fun st => st.resolved.map fun e => (e.ns, e.rule.name, e.targets)) =
+    [some [(["b"], "C0", []), (["c"], "C0", []), (["m"], "Main", [.cls 0])],
+     some [(["b"], "C1", []), (["c"], "C0", []), (["m"], "Main", [.cls 1])]] := by
+  decide +kernel
+
 end Imp
